@@ -138,7 +138,7 @@ theorem C09_match_has_no_decoder :
 /-! ### non-vacuity -/
 example : ev0 100 [] (trStage0 (.bracket (.letE "y" (.flt 7) (.app (.var "add") [.var "y", .now])))) =
     .ok (.code (.letE "y" (.flt 7) (.app (.var "add") [.var "y", .now]))) :=
-  (C09_quote_splice_id [] NoShadow_nil _ (by simp [Stage1, hasStaging, hasStaging.anyStaging]) 100 (by decide)).2
+  (C09_quote_splice_id [] NoShadow_nil _ (by simp [Stage1, beyond1, beyond1.anyBeyond]) 100 (by decide)).2
 
 /-- `C09_expand_sound` on the macro of finding F6, `fn m(x){ `{ let y = 10.0; $x + y } }` called as `m!(`y)`: the expansion
 is the template with `y` substituted for `$x` — by name, so the argument's `y` lands under the template's binder -/
